@@ -26,7 +26,7 @@ func (e *Engine) ScanRegistrations(pkgName, mapName string) ([]Registration, err
 	var regs []Registration
 	var aliases [][3]string
 	var pkg *ssa.Package
-	for _, p := range e.SSAPkgs {
+	for _, p := range e.Prog.AllPackages() {
 		if p != nil && p.Pkg.Name() == pkgName && strings.HasPrefix(p.Pkg.Path(), RepoModule) {
 			pkg = p
 		}
